@@ -354,6 +354,13 @@ impl Parsing {
     fn check(&self, ctx: &mut Ctx, doc: &ANode, r: &Rendered, ep: Ep) -> bool {
         let prop = self.prop();
         let mut xot = Xot::new();
+        // a Xot that has been in use: id tables past their first thresholds, now and then two attribute names of one
+        // element with ids that coincide modulo 256 / 65 536
+        if crate::build::maybe_collide(&mut xot, doc) {
+            ctx.count("parsed_into_xot_with_colliding_name_ids");
+        } else if crate::build::age_xot(&mut xot, doc) > 0 {
+            ctx.count("parsed_into_aged_xot");
+        }
         let epn = ep.name();
         let bytes = match ep {
             Ep::Bytes(enc) => match render::encode(&r.text, enc) {
@@ -534,7 +541,9 @@ impl Parsing {
                 bad(ctx, "span-out-of-bounds", item, format!("span {}..{} for {} is outside the source (len {}) or not on character boundaries", sp.start, sp.end, item, len));
                 return false;
             }
-            if (sp.start, sp.end) != (s.start, s.end) {
+            let start_ok = sp.start == s.start || Some(sp.start) == s.alt_start;
+            let end_ok = sp.end == s.end || Some(sp.end) == s.alt_end;
+            if !(start_ok && end_ok) {
                 bad(
                     ctx,
                     "span-wrong-offsets",
